@@ -548,7 +548,7 @@ Proof.
              end)))).
   { destruct ignorer as [ig|]; [apply K_skipto_ign; [exact Hi|exact Hin]|apply Hin]. }
   destruct failon as [fo|]; [|exact Hafter].
-  apply K_can_parse_next; [exact Hf|]. intros [|]; [apply Hkk|exact Hafter].
+  apply K_can_parse_next; [exact Hf|]. intros [|]; [unfold fail_of; apply Hk|exact Hafter].
 Qed.
 
 (* ---- Each ---- *)
